@@ -839,8 +839,8 @@ def dict_variants(g, specs):
 def gen(rng, tier):
     g = G(rng)
     quick = tier != "thorough"
-    cap = 16 if quick else 256
-    rounds = 1 if quick else 12
+    cap = 64 if quick else 256
+    rounds = 2 if quick else 30
     cases = []
     specs = []
     for _ in range(rounds):
@@ -850,9 +850,9 @@ def gen(rng, tier):
         cases.append({"cls": s.cls, "kind": "obj", "w": enc(fix_right_id(s))})
     for s in invalid_objs(g):
         cases.append({"cls": s.cls, "kind": "obj", "w": enc(s)})
-    cases += legacy_cases(g, 40 if quick else 1500)
+    cases += legacy_cases(g, 80 if quick else 4000)
     rng.shuffle(specs)
-    cases += dict_variants(g, specs[: (300 if quick else 6000)])
+    cases += dict_variants(g, specs[: (600 if quick else 20000)])
     # BaseContent.from_dict dispatches on status
     for s in specs:
         if s.cls in ("Content", "SkippedContent") and rng.random() < (0.3 if quick else 0.1):
@@ -1019,11 +1019,13 @@ def requests(c):
         if not isinstance(d, dict):
             return "00" * 20
         return _oracle_id(lambda i: _cls(c["cls"]).from_dict({**copy.deepcopy(d), "id": i}))
+    def orig_for(d):                  # the oracle's answer for a (nested) Origin
+        return oid_for(d) if c["cls"] == "Origin" else _origin_id(d)
     d = realize(dec(c["w"]))
-    reqs.append("%s %s %s %s %s" % (c.get("op", "fd"), c["cls"], oid_for(d), _origin_id(d), c["w"]))
+    reqs.append("%s %s %s %s %s" % (c.get("op", "fd"), c["cls"], oid_for(d), orig_for(d), c["w"]))
     if c.get("w2"):
         d2 = realize(dec(c["w2"]))
-        reqs.append("fd %s %s %s %s" % (c["cls"], oid_for(d2), _origin_id(d2), c["w2"]))
+        reqs.append("fd %s %s %s %s" % (c["cls"], oid_for(d2), orig_for(d2), c["w2"]))
     return reqs
 
 
